@@ -168,6 +168,25 @@ def good_script(kind, a, session, salt=1, delays=None, login_len=44):
     return out
 
 
+async def guarded(coro, timeout):
+    """("ok", result) | ("raise", exc) | ("timeout", None) - the last one only when the harness guard expired."""
+    task = asyncio.ensure_future(coro)
+    done, pending = await asyncio.wait({task}, timeout=timeout)
+    if pending:
+        task.cancel()
+        try:
+            await task
+        except BaseException:  # noqa
+            pass
+        return ("timeout", None)
+    try:
+        return ("ok", task.result())
+    except asyncio.CancelledError:
+        return ("raise", asyncio.CancelledError())
+    except Exception as exc:  # noqa
+        return ("raise", exc)
+
+
 class Client:
     """An API object connected to the fake device, with the device-side connection record."""
 
@@ -203,14 +222,11 @@ class Client:
             await asyncio.sleep(0 if i < 5000 else 0.001)
 
     async def call(self, kind, a, timeout=40.0):
-        """Run one operation; returns ("ok", result) | ("raise", exc) | ("timeout", None)."""
-        try:
-            res = await asyncio.wait_for(invoke(self.api, kind, a), timeout)
-            out = ("ok", res)
-        except asyncio.TimeoutError:
-            out = ("timeout", None)
-        except Exception as exc:  # noqa
-            out = ("raise", exc)
+        """Run one operation; returns ("ok", result) | ("raise", exc) | ("timeout", None).
+
+        "timeout" means the HARNESS guard expired (the operation never ended); a TimeoutError raised by the code under
+        test is an ordinary ("raise", exc)."""
+        out = await guarded(invoke(self.api, kind, a), timeout)
         await self.settle()
         return out
 
